@@ -24,9 +24,14 @@ VARIABLES l,      \* index of the next event
           cov     \* set of <<row index, expected outcome class>> seen so far (coverage accounting)
 vars == <<l, cov>>
 
+StdoutPrefix == <<115, 116, 100, 111, 117, 116, 58>>      \* "stdout:"
+(* console bytes and captured messages of one step: only the MES write call emits anything; *)
+(* its bytes appear once on the console and as one stdout: message (an empty write may      *)
+(* announce nothing)                                                                        *)
 ConOK(e, x) ==
   /\ e.con = x.con
-  /\ IF Len(x.con) = 0 /\ x.row > 0 /\ Forms[x.row].mn # "TRAPA" THEN e.msgs = <<>> ELSE TRUE
+  /\ IF x.sys = "write" THEN e.msgs = <<StdoutPrefix \o x.con>> \/ (Len(x.con) = 0 /\ e.msgs = <<>>)
+     ELSE e.msgs = <<>>
 
 (* which fields of the expectation are wrong (for the report) *)
 Diffs(e, s, x) ==
@@ -36,7 +41,7 @@ Diffs(e, s, x) ==
         \o (IF (CcrOf(e.post) & x.cm) # (x.ccr & x.cm) THEN <<"ccr">> ELSE <<>>)
         \o (IF e.post[18] # x.pc \div P16 \/ e.post[19] # x.pc % P16 THEN <<"pc">> ELSE <<>>)
         \o (IF ~(\E w \in x.wr : WrOK(w, e.wr, s.mem)) THEN <<"wr">> ELSE <<>>)
-        \o (IF e.con # x.con THEN <<"con">> ELSE <<>>)
+        \o (IF ~ConOK(e, x) THEN <<"con">> ELSE <<>>)
         \o (IF x.cyc >= 0 /\ e.st # x.cyc THEN <<"st">> ELSE <<>>)
       ELSE <<>>)
 
@@ -59,6 +64,8 @@ CaseOK(e, s, x) ==
          ELSE e.res # "panic"
     [] OTHER -> FALSE
 
+CovName(i) == IF i > 0 THEN Forms[i].id ELSE IF i = 0 THEN "undefined" ELSE IF i = -1 THEN "fetch-fault"
+              ELSE IF i = -2 THEN "cost-undefined" ELSE IF i = -3 THEN "cost" ELSE "other"
 RowName(x) == IF x.row > 0 THEN Forms[x.row].id ELSE IF x.row = 0 THEN "undefined" ELSE "fetch-fault"
 
 Report(kind, e, s, x, extra) ==
@@ -78,18 +85,31 @@ CaseEvent(e) ==
      /\ cov' = cov \cup {<<x.row, x.res>>}
 
 (***************************************************************************)
+(* C19: one evaluation of the real cost function                            *)
+(***************************************************************************)
+CostEvent(e) ==
+  LET br == [abwcr |-> e.br[1], astcr |-> e.br[2], wcrh |-> e.br[3], wcrl |-> e.br[4], drcra |-> e.br[5]]
+      x  == CycleCost(e.kind, e.n, e.a, br)
+      ok == x < 0 \/ (e.res = "ok" /\ e.v = x)
+  IN /\ IF ok THEN TRUE
+        ELSE PrintT("MISMATCH " \o ToJson([id |-> e.id, prop |-> PROP, row |-> "cost " \o e.kind, exp |-> "ok", got |-> e.res,
+                                          fields |-> <<"v">>, expv |-> x, gotv |-> e.v, n |-> e.n, a |-> e.a, br |-> e.br]))
+     /\ cov' = cov \cup {<<IF x < 0 THEN -2 ELSE -3, e.kind>>}
+
+(***************************************************************************)
 (* next-state relation                                                      *)
 (***************************************************************************)
 Consume ==
   /\ l <= NRec
   /\ LET e == Rec[l]
      IN CASE e.k = "case" -> CaseEvent(e)
+          [] e.k = "cost" -> CostEvent(e)
           [] OTHER -> PrintT("MISMATCH " \o ToJson([id |-> l, prop |-> PROP, row |-> "unknown-event-kind"])) /\ UNCHANGED cov
   /\ l' = l + 1
 
 Finish ==
   /\ l = NRec + 1
-  /\ PrintT("COVERAGE " \o ToJson([rows |-> SetToSeq({<<IF p[1] > 0 THEN Forms[p[1]].id ELSE IF p[1] = 0 THEN "undefined" ELSE "fetch-fault", p[2]>> : p \in cov})]))
+  /\ PrintT("COVERAGE " \o ToJson([rows |-> SetToSeq({<<CovName(p[1]), p[2]>> : p \in cov})]))
   /\ PrintT("DONE " \o ToString(NRec))
   /\ l' = l + 1
   /\ UNCHANGED cov
